@@ -22,7 +22,7 @@ import (
 )
 
 var numericTexts = []string{
-	"0", "1", "-1", "+5", "007", "42", "-0", "9223372036854775807", "9223372036854775808", "-9223372036854775808", "-9223372036854775809",
+	"0", "1", "-1", "+5", "007", "010", "0123", "-0755", "00010", "08", "0777", "0b101", "0o17", "42", "-0", "9223372036854775807", "9223372036854775808", "-9223372036854775808", "-9223372036854775809",
 	"1.5", "-2.5e3", "1e3", ".5", "5.", "1e400", "-1e400", "1e-400", "0.0", "3.999", "-3.999", "1E2", "1e+2", "2147483648", "4294967296", "123456789012",
 	"abc", "12abc", "1 ", "", " ", " 1", "1\n", "0x10", "0X1F", "1_000", "inf", "Inf", "NaN", "+Inf", "-infinity", "true", "false", "1,5", "1.2.3", "--1", "+-1", "e5", "1e", "0x1p-2",
 	"١٢٣", "1\x00", "\x001",
@@ -30,8 +30,28 @@ var numericTexts = []string{
 	"2006-01-02 15:04:05.1", "2006-01-02 15:04:05.12345", " 2006-01-02 15:04:05", "2006-01-02 25:04:05", "2021-02-30 10:00:00", "0000-01-01 00:00:00", "9999-12-31 23:59:59.999",
 }
 
+// genNumericText draws text that looks like a decimal number: optional sign,
+// optional leading zeros, digits, optional fraction and exponent.
+func genNumericText(t *rapid.T) string {
+	s := rapid.SampledFrom([]string{"", "", "-", "+"}).Draw(t, "sign")
+	s += rapid.SampledFrom([]string{"", "", "0", "00", "000"}).Draw(t, "zeros")
+	s += fmt.Sprint(rapid.IntRange(0, 99999).Draw(t, "digits"))
+	switch rapid.IntRange(0, 5).Draw(t, "tail") {
+	case 0:
+		s += "." + fmt.Sprint(rapid.IntRange(0, 999).Draw(t, "frac"))
+	case 1:
+		s += "e" + fmt.Sprint(rapid.IntRange(0, 12).Draw(t, "exp"))
+	}
+	return s
+}
+
 func genStored(t *rapid.T) val.V {
-	switch rapid.IntRange(0, 3).Draw(t, "sk") {
+	switch rapid.IntRange(0, 4).Draw(t, "sk") {
+	case 4:
+		if rapid.Bool().Draw(t, "asblob") {
+			return val.Blob([]byte(genNumericText(t)))
+		}
+		return val.Text(genNumericText(t))
 	case 0:
 		return val.Text(rapid.SampledFrom(numericTexts).Draw(t, "nt"))
 	case 1:
